@@ -228,7 +228,7 @@ func Main(h Harness) {
 					// in the harness it is ours.
 					site := crashSite(o.Stderr)
 					if o.TimedOut {
-						site = hangSite(o.Stderr)
+						site = lib.HangSite(o.Stderr)
 					}
 					if strings.HasPrefix(site, "a cycle through schema.") || strings.HasPrefix(site, "a cycle through atp.") ||
 						strings.HasPrefix(site, "schema.") || strings.HasPrefix(site, "atp.") {
@@ -256,7 +256,7 @@ func Main(h Harness) {
 				}
 				sig := kind + ": " + crashClass(what)
 				if o.TimedOut {
-					if site := hangSite(o.Stderr); site != "" {
+					if site := lib.HangSite(o.Stderr); site != "" {
 						sig += " in a call to " + site
 					}
 				} else if site := crashSite(o.Stderr); site != "" {
@@ -412,34 +412,6 @@ func crashClass(s string) string {
 // crashSite names a function of the module under test on the crashing goroutine's stack: the innermost one,
 // or - for unbounded recursion, where the innermost frame is arbitrary - the alphabetically first among the
 // innermost 60 frames (a stable representative of the cycle).
-// hangSite names the outermost function of the module under test on the stack of the goroutine that was running
-// when the watchdog's SIGQUIT arrived (the entry point of the call that does not return; the innermost frame of a
-// spinning loop differs from one dump to the next).
-func hangSite(stderr string) string {
-	lines := strings.Split(stderr, "\n")
-	for i, l := range lines {
-		if !strings.HasPrefix(l, "goroutine ") || !(strings.Contains(l, "[running]") || strings.Contains(l, "[runnable]")) || strings.HasPrefix(l, "goroutine 0 ") {
-			continue
-		}
-		site := ""
-		for _, fl := range lines[i+1:] {
-			if strings.TrimSpace(fl) == "" {
-				break
-			}
-			if strings.HasPrefix(fl, "\t") {
-				continue
-			}
-			if strings.Contains(fl, "pluginsdk/schema.") || strings.Contains(fl, "pluginsdk/atp.") || strings.Contains(fl, "pluginsdk/plugin.") {
-				site = lib.PanicSite(fl)
-			}
-		}
-		if site != "" && site != "?" {
-			return site
-		}
-	}
-	return ""
-}
-
 func crashSite(stderr string) string {
 	lines := strings.Split(stderr, "\n")
 	for i, l := range lines {
